@@ -43,4 +43,12 @@ func main() {
 		}
 		write(fmt.Sprintf("rsa2048-%d", i), rk)
 	}
+	// RSA moduli of other sizes, also with a bit length that is not a multiple of 8
+	for _, bits := range []int{2049, 2052, 3072} {
+		rk, err := rsa.GenerateKey(rand.Reader, bits)
+		if err != nil {
+			panic(err)
+		}
+		write(fmt.Sprintf("rsa%d-1", bits), rk)
+	}
 }
